@@ -514,7 +514,7 @@ pub fn c08_positions(c: &FuCtx, rec: &mut Rec) {
         }
         FuOp::ExpandPos { u, id, lp, amount } => {
             let t = c.pre.pos(id);
-            let allowed = t.map_or(false, |t| t.open && t.receiver == sender_addr(*u) && t.lp_asset.denom == c.pre.lps[*lp]);
+            let allowed = t.map_or(false, |t| t.open && t.receiver == sender_addr(*u) && t.lp_asset.denom == c.pre.lp_denom(*lp));
             if !allowed && ok {
                 rec.viol("C08_unauthorised_expand", format!("{:?} accepted on {:?}", c.op, t));
             }
@@ -870,6 +870,11 @@ pub fn jobs_c05(tier: Tier) -> Vec<Job> {
     // the farm manager should do across a restart is outside the listed properties)
     let restart = FuChecker::new("c05-fu-epoch-restart", vec!["F19"], FAlpha::RewardCore, vec![c05_custody]);
     v.push(explore_job(restart, tier.pick(2, 3), Caps::default()));
+    // the pool manager was redeployed and the farm manager re-pointed at the new instance, whose pool of the same identifier
+    // issues an LP token with the same symbol: old positions stay backed by the old token
+    let mut redeployed = FuChecker::new("c05-fu-redeployed-pm", vec!["F21"], FAlpha::Positions, vec![c05_custody]);
+    redeployed.state_oracles = vec![c05_drain];
+    v.push(explore_job(redeployed, tier.pick(2, 3), Caps::default()));
     // farm funding under the other fee configurations (zero fee, fee in the reward denom): every fund shape of the farm alphabet
     for (i, fee) in [("uusdc", 0u128), ("uom", 0), ("uusdc", 1000)].into_iter().enumerate() {
         let mut c = FuChecker::new(&format!("c05-fu-farms-feecfg{}", i + 1), vec!["F0", "F2"], FAlpha::Farms, vec![c05_custody]);
@@ -900,7 +905,8 @@ pub fn jobs_c07(tier: Tier) -> Vec<Job> {
 pub fn jobs_c08(tier: Tier) -> Vec<Job> {
     let full = FuChecker::new("c08-fu-full", vec!["F0", "F2", "F4", "F5"], FAlpha::Full, vec![c08_positions]);
     let p = FuChecker::new("c08-fu-positions", vec!["F1", "F4", "F5", "F7"], FAlpha::Positions, vec![c08_positions, fu_defaults]);
-    vec![explore_job(full, tier.pick(2, 3), Caps::default()), explore_job(p, tier.pick(3, 4), Caps::default())]
+    let redeployed = FuChecker::new("c08-fu-redeployed-pm", vec!["F21"], FAlpha::Positions, vec![c08_positions]);
+    vec![explore_job(full, tier.pick(2, 3), Caps::default()), explore_job(p, tier.pick(3, 4), Caps::default()), explore_job(redeployed, tier.pick(2, 3), Caps::default())]
 }
 pub fn jobs_c10_explore(tier: Tier) -> Vec<Job> {
     let p = FuChecker::new("c10-fu-positions", vec!["F0", "F1", "F4", "F7"], FAlpha::Positions, vec![c10_weights]);
